@@ -9,6 +9,12 @@ token attributes) and sent to the real engine.  The verdict comes from the real 
   * a request the router dispatches to an /internal handler (control: same target, valid token) carrying an invalid
     credential is not answered 401, or a handler ran on a 401                                       -> violation
   * a handler of /internal, /status, /metrics, /health ran for a request sent to the public port   -> violation
+A case is one request or a HISTORY of two requests to the same engine (family "history": the same credential presented again
+after its exp has passed, the claims of a granted token under a foreign signature, no credential on the connection a request was
+granted on); the verdict is about the LAST request, judged by the statement at the time it was sent (the driver reports the send
+times and the exp claim; a second request that was not sent after exp is a dead case, never a verdict).
+Two small configurations with a deviation switched on (HttpGuard.history.dev.cfg, HttpGuard.clean.dev.cfg) must be REFUTED by
+TLC: they show that the histories / the multi-segment parameter and wildcard targets are dangerous inputs of the model.
 Differences between the model's prediction and the real verdict that the statement does not forbid are DRIFT."""
 import json, os, random, time
 from concurrent.futures import ThreadPoolExecutor
@@ -16,9 +22,9 @@ from .. import vlib
 from ..vlib import Report, Inconclusive
 
 PROPS = ["C04"]
-INTERNAL_AUTH = {"internal", "iparam", "iroot"}
+INTERNAL_AUTH = {"internal", "iparam", "iwild", "iroot"}
 INTERNAL_BOUND = INTERNAL_AUTH | {"status", "metrics", "health"}
-ACTIONS = ["Route", "Guard", "Extract", "Secure", "Verify", "Validate", "Best", "Issuer", "Dispatch"]
+ACTIONS = ["Route", "Guard", "Extract", "Secure", "Verify", "Validate", "Best", "Issuer", "Dispatch", "Follow"]
 DEFAULT_TOK = {"shape": "bearer", "ser": "compact", "alg": "ed25519/EdDSA", "signer": "authorised", "hdr": "none", "aud": "ok",
                "iss": "ok", "sub": "ok", "jti": "uuid", "nbf": "60s", "iat": "0", "life": "1h", "len": "ok"}
 WORKERS = 8
@@ -37,6 +43,14 @@ def tkey(c):
     return (c["cfg"], c["port"], c["method"], "".join(c["target"]))
 
 
+def is_history(c):
+    return c.get("rel", "none") != "none"
+
+
+def ckey(c):
+    return json.dumps([tkey(c), c["tok"], c.get("rel", "none"), [p["tok"] for p in c.get("past", [])]], sort_keys=True)
+
+
 def deviations(tok):
     return ",".join("%s=%s" % (k, tok[k]) for k in sorted(tok) if tok[k] != DEFAULT_TOK[k])
 
@@ -45,6 +59,8 @@ def cause_of(c):
     """The attribute values that make the credential invalid: those that do so alone, else the deviating time claims, else all."""
     if c.get("expzero"):
         return "exp=0"
+    if is_history(c) and c["rel"] == "same-later" and c["past"][0]["tok"]["life"] == "short":
+        return "expired"     # the credential the first request was granted with, presented again after its exp
     if c["why"]:
         return ",".join("%s=%s" % (a, c["tok"][a]) for a in sorted(c["why"]))
     t = ",".join("%s=%s" % (a, c["tok"][a]) for a in ("iat", "life", "nbf") if c["tok"][a] != DEFAULT_TOK[a])
@@ -69,17 +85,20 @@ def judge(cases, results, rep, prop):
         r = got.get(c["id"])
         if not r or r.get("error") or not r.get("obs"):
             continue
+        if is_history(c):
+            continue
         dev = deviations(c["tok"])
         reached = set(x for o in r["obs"] for x in o["reached"])
         if dev == "":
             valid_reach[tkey(c)] = reached
         elif dev == "shape=absent":
             absent_reach[tkey(c)] = reached
-    st = dict(requests=0, nontrivial=set(), drift=[], errors=[], granted=0, denied=0, unchecked401=0, samples=[], repaired=0)
+    st = dict(requests=0, nontrivial=set(), drift=[], errors=[], granted=0, denied=0, unchecked401=0, samples=[], repaired=0,
+              histories=0, histories_first_granted=0, history_samples=[])
 
     controls = {}
     for x in cases:
-        if deviations(x["tok"]) in ("", "shape=absent"):
+        if deviations(x["tok"]) in ("", "shape=absent") and not is_history(x):
             controls.setdefault(tkey(x), []).append(x)
 
     def siblings(c):
@@ -100,6 +119,26 @@ def judge(cases, results, rep, prop):
                 continue
             real = classify(o)
             reached = set(o["reached"])
+            hist = {}
+            if is_history(c):
+                # the statement is applied at the time the request was sent: a token counts as expired only if it was
+                f = o.get("first") or {}
+                if f.get("err") or not o.get("sent_at"):
+                    st["errors"].append("case %s: history %s: the first request failed: %s" % (c["id"], c["rel"], f.get("err")))
+                    continue
+                st["histories"] += 1
+                if set(f.get("reached", [])) & INTERNAL_AUTH and f.get("user"):
+                    st["histories_first_granted"] += 1
+                if c["rel"].endswith("-later") and c["past"][0]["tok"]["life"] == "short" and not o["sent_at"] >= o["first_exp"] + 0.2:
+                    st["errors"].append("case %s: history %s: the second request was sent %.2f s before the token expired" % (
+                        c["id"], c["rel"], o["first_exp"] - o["sent_at"]))
+                    continue
+                hist = dict(history=c["rel"])
+                if len(st["history_samples"]) < 3 and c["rel"] not in [h["relation"] for h in st["history_samples"]]:
+                    st["history_samples"].append(dict(relation=c["rel"], first=dict(request_line=f.get("line"), http_status=f.get("status"), reached=f.get("reached"),
+                                                                                    token_exp=o["first_exp"], sent_at=round(o["first_sent_at"], 2)),
+                                                      second=dict(request_line=o["line"], sent_at=round(o["sent_at"], 2), http_status=o["status"], reached=o["reached"]),
+                                                      validity_of_second=c["validity"]))
             if reached or o["status"] == 401:
                 st["nontrivial"].add(c["id"])
             if reached & INTERNAL_AUTH and o.get("user"):
@@ -112,12 +151,13 @@ def judge(cases, results, rep, prop):
                 if absent_reach.get(tkey(c), set()) & INTERNAL_AUTH:
                     sig = dict(kind="auth-bypass", target_form=c["form"].split("-")[0], path_variant=c["variant"], route=c["route"])
                 else:
-                    sig = dict(kind="invalid-token-accepted", token=cause_of(c))
-                rep.violation(sig, dict(replay, violation=dict(sig, line=o["line"], auth=o.get("auth"), status=o["status"], reached=o["reached"])))
+                    sig = dict(kind="invalid-token-accepted", token=cause_of(c), **hist)
+                rep.violation(sig, dict(replay, violation=dict(sig, line=o["line"], auth=o.get("auth"), status=o["status"], reached=o["reached"],
+                                                               first=o.get("first"), sent_at=o.get("sent_at"), first_exp=o.get("first_exp"))))
             # (2) every failure is answered 401 with no side effect
             elif c["validity"] == "no" and valid_reach.get(tkey(c), set()) & INTERNAL_AUTH:
                 if o["status"] != 401 or reached:
-                    sig = dict(kind="failure-not-401", status=o["status"], token=cause_of(c))
+                    sig = dict(kind="failure-not-401", status=o["status"], token=cause_of(c), **hist)
                     rep.violation(sig, dict(replay, violation=dict(sig, line=o["line"], auth=o.get("auth"), reached=o["reached"])))
             elif c["validity"] == "no" and tkey(c) not in valid_reach:
                 st["unchecked401"] += 1
@@ -148,7 +188,7 @@ def sanity(cases, results):
     got = {r["id"]: r for r in results}
     ok_valid = ok_absent = False
     for c in cases:
-        if (c["form"], c["variant"], c["route"], c["port"]) != ("origin", "plain", "internal", "internal"):
+        if (c["form"], c["variant"], c["route"], c["port"]) != ("origin", "plain", "internal", "internal") or is_history(c):
             continue
         r = got.get(c["id"])
         if not r or not r.get("obs"):
@@ -186,8 +226,18 @@ def run(prop, tier, seed, replay=None):
     states = transitions = 0
     cases = []
     predicted_bad = 0
-    for fam in ("targets", "tokens", "claims"):
-        base = "HttpGuard.claims" if fam == "claims" else "HttpGuard.%s.%s" % (fam, "quick" if quick else "thorough")
+    # vacuity guards of the added dimensions: with the deviation switched on TLC must refute AuthSound on the generated inputs
+    guards = []
+    for dev in ["HttpGuard.history.dev.cfg"] + ([] if quick else ["HttpGuard.clean.dev.cfg"]):
+        d = vlib.tlc("HttpGuard", dev, workers=WORKERS // 2, timeout=600)
+        if d.error:
+            raise Inconclusive("TLC %s: %s" % (dev, d.error))
+        if d.violation != "AuthSound":
+            raise Inconclusive("vacuity: %s (a deviation switched on) is not refuted by TLC: the inputs that make the deviation visible "
+                               "are not generated any more (violation=%s)" % (dev, d.violation))
+        guards.append(dict(cfg=dev, refuted="AuthSound", states=d.distinct, wall_s=round(d.wall, 1)))
+    for fam in ("targets", "tokens", "claims", "history"):
+        base = "HttpGuard.%s" % fam if fam in ("claims", "history") else "HttpGuard.%s.%s" % (fam, "quick" if quick else "thorough")
         same = constants_of(base + ".gen.cfg") == constants_of(base + ".cfg")
         # the prescriptive and the descriptive run of a family go in parallel (4 workers each = 8 in total)
         with ThreadPoolExecutor(max_workers=2) as ex:
@@ -204,7 +254,7 @@ def run(prop, tier, seed, replay=None):
         for a, n in m.coverage.items():
             cover[a] = cover.get(a, 0) + n
         models.append(dict(cfg=base + ".cfg", states=m.distinct, transitions=m.generated, wall_s=round(m.wall, 1)))
-        presc = {json.dumps([tkey(c), c["tok"]], sort_keys=True): (c["status"], c["reached"]) for c in m.printed}
+        presc = {ckey(c): (c["status"], c["reached"]) for c in m.printed}
         if same:
             g = m     # no deviation constant is switched on: descriptive = prescriptive, one TLC run serves both
             g.printed = [dict(c) for c in m.printed]
@@ -218,7 +268,7 @@ def run(prop, tier, seed, replay=None):
         predicted_bad += sum(1 for c in g.printed if c["bad"])
         models.append(dict(cfg=base + ".gen.cfg", states=g.distinct, cases=len(g.printed), wall_s=round(g.wall, 1)))
         for c in g.printed:
-            c["presc"] = list(presc[json.dumps([tkey(c), c["tok"]], sort_keys=True)])
+            c["presc"] = list(presc[ckey(c)])
         cases += g.printed
     if not quick:
         missing = [a for a in ACTIONS if not cover.get(a)]
@@ -227,8 +277,7 @@ def run(prop, tier, seed, replay=None):
     # the two families overlap on a few cases: keep one of each
     uniq = {}
     for c in cases:
-        k = json.dumps([tkey(c), c["tok"]], sort_keys=True)
-        uniq.setdefault(k, c)
+        uniq.setdefault(ckey(c), c)
     cases = list(uniq.values())
     rnd.shuffle(cases)
     for i, c in enumerate(cases):
@@ -247,16 +296,21 @@ def run(prop, tier, seed, replay=None):
     if st["repaired"]:
         rep.notes.append("NOTE: %d real verdicts follow the PRESCRIPTIVE model instead of the descriptive one: a deviation named by a constant of "
                          "HttpGuard.tla has been repaired in the code, switch it in spec/cfg/HttpGuard.*.gen.cfg" % st["repaired"])
+    if not st["histories"] or st["histories_first_granted"] * 2 < st["histories"]:
+        rep.inconclusive.append("vacuity: %d histories, the first request was granted in %d of them" % (st["histories"], st["histories_first_granted"]))
     if not st["granted"] or not st["denied"]:
         rep.inconclusive.append("vacuity: granted=%d denied=%d" % (st["granted"], st["denied"]))
     cov = dict(evaluations=st["requests"], distinct_nontrivial=len(st["nontrivial"]), exhaustive=True,
                rule="TLC enumerates the complete product listener(same/different address x port) x request target (form x path variant x "
                     "route family, as atom sequences) x credential (all tokens with at most %d deviations from a valid one on the core targets, "
                     "%s on all targets); every case is one raw TCP request (several for MAC algorithms / Basic encodings) against the real "
-                    "http.Engine. distinct = distinct (listener, target, token attributes); non-trivial = the real request was answered by the token "
+                    "http.Engine; family history: two requests to the same engine (first: a valid token of each permitted algorithm, expiring "
+                    "in 3 s or in 1 h; second: the same text after the 3 s have passed / the same claims signed by a foreign key / no credential on the "
+                    "same connection), judged at the time the second request was sent. distinct = distinct (listener, target, token attributes); non-trivial = the real request was answered by the token "
                     "middleware (401) or ran a registered handler (requests refused by net/http or unrouted are counted in evaluations only)"
                     % ((1, "the 9 core tokens") if quick else (2, "all tokens with at most 1 deviation")),
-               samples=st["samples"], abstract_cases=len(cases), states=states, transitions=transitions, models=models,
+               samples=st["samples"], history_samples=st["history_samples"], histories=st["histories"],
+               histories_first_request_granted=st["histories_first_granted"], deviation_models_refuted=guards, abstract_cases=len(cases), states=states, transitions=transitions, models=models,
                action_coverage=cover, drift=ndrift, drift_samples=sorted(set(st["drift"]))[:5],
                model_predicted_violations=predicted_bad, verdicts_matching_prescriptive_model_only=st["repaired"], requests_granted=st["granted"], requests_denied_401=st["denied"],
                invalid_credentials_on_unrouted_targets=st["unchecked401"], known_findings=sorted(rep.known))
@@ -264,7 +318,9 @@ def run(prop, tier, seed, replay=None):
                         ["the validity of a forged credential is known by construction (attributes -> bytes in harness/drivers/httpguard)",
                          "Go net/http 1.x request-line parsing and echo v4 routing as linked into the binary",
                          "signature primitives of jwx / Go crypto are trusted",
-                         "routes registered by the driver stand for the node's handlers: static, parameterised and root route under /internal, "
+                         "routes registered by the driver stand for the node's handlers: static, parameterised (:id), wildcard (*) and root route under /internal, "
                          "/status, /metrics, /health and one public route; methods GET/CONNECT/OPTIONS",
-                         "HTTP/1.1 over plain TCP only (no HTTP/2, no TLS offloading proxy in front)"])
+                         "HTTP/1.1 over plain TCP only (no HTTP/2, no TLS offloading proxy in front)",
+                         "histories have two requests and a lapse of about 3 s of real time (no clock seam in tokenV2); longer histories and longer "
+                         "lapses are not explored"])
     return rep.finish()
